@@ -1044,7 +1044,7 @@ pub fn gen_big(p: &mut Prng, id: String) -> SimCase {
             }
             out.push((t, dir));
         }
-        (out, *p.pick(&[0usize, 0, 1]), *p.pick(&[0usize, 1]))
+        if n > 4096 { (out, 0, 0) } else { (out, *p.pick(&[0usize, 0, 1]), *p.pick(&[0usize, 1])) }
     } else {
         let big = *p.pick(&[9usize, 17, 33, 65, 70]);
         if p.chance(1, 2) { (gen_trace(p), big, *p.pick(&[0usize, 1, 9])) } else { (gen_trace(p), *p.pick(&[0usize, 1]), big) }
@@ -1064,7 +1064,7 @@ pub fn gen_big(p: &mut Prng, id: String) -> SimCase {
     let mut c = SimCase { id, kind: "big".into(), mc, ms, trace, delay_ns, runs: vec![] };
     let mut main = base_run("main", p, None);
     if long {
-        main.msi = if nmc + nms == 0 { 0 } else { 30000 };
+        main.msi = if nmc + nms == 0 { 0 } else { 8000 };
         main.mtl = 0;
     }
     expand_runs(&mut c, main, p);
